@@ -207,6 +207,19 @@ def beyond_alphabet(ctx, modes):
                                        observed=repr(o.value if o.kind == 'ret' else o.exc)[:200]))
                     if len(ctx.violations) >= 3:
                         return n
+    # the same commands with every argument given by position, in the documented order, and raw output asked for
+    for si, b in enumerate(seqs[:8]):
+        chunks = [b[:1], b[1:]] if len(b) > 1 else [b]
+        for api in ('shell', 'exec_out', 'streaming_shell'):
+            for mode in modes:
+                spec = dict(seed=ctx.seed + si, maxdata=4096, rid='plus', frag='whole', ops=[dict(api=api, decode=False, positional=True, cmd='p%d' % si, chunks=[c.hex() for c in chunks])])
+                o = scen.run(spec, mode).outcomes[1]
+                want = chunks if api == 'streaming_shell' else b
+                n += 1
+                if o.kind != 'ret' or o.value != want:
+                    ctx.violation('C01.ExactConcatenation', dict(kind='arguments by position, decode=False', mode=mode, api=api, chunks=[c.hex() for c in chunks], expected=repr(want)[:200],
+                                                                 observed=repr(o.value if o.kind == 'ret' else o.exc)[:200]))
+                    return n
     return n
 
 
